@@ -69,6 +69,7 @@ type Engine struct {
 	Errors    []string
 
 	fresh    int
+	litSig   *types.Signature // signature of the function literal being executed
 	strlits  map[string]smt.T
 	typeIDs  map[string]int
 	pathN    int
@@ -78,8 +79,14 @@ type Engine struct {
 	loopOrd  map[ast.Stmt]int
 	retOrd   map[*ast.ReturnStmt]int
 	fieldIdx map[string]int
-	// PureHeap: pointers are immutable references (no heap havoc at calls).
 	TraceOn bool
+	// FreshCounter numbers bound variables minted by client spec functions.
+	FreshCounter int
+	// TypeTermHook lets a client choose the constant standing for a Go type.
+	TypeTermHook func(t types.Type) (smt.T, bool)
+	// ExtraBound: additional spec-level names per contract key (Layer O binds
+	// generator-level names such as typ to type terms).
+	ExtraBound map[string]map[string]Val
 }
 
 func NewEngine(fset *token.FileSet, cs *contract.Set) *Engine {
@@ -327,6 +334,12 @@ func typeKey(t types.Type) string {
 // TypeTerm returns the V constant that stands for a Go type in spec functions
 // such as goeq(T, x, y). Clients (Layer O) may override via TypeTermHook.
 func (e *Engine) TypeTerm(t types.Type) smt.T {
+	if e.TypeTermHook != nil {
+		if tt, ok := e.TypeTermHook(t); ok {
+			e.Decls.Const(tt.S, smt.V)
+			return tt
+		}
+	}
 	return e.Decls.Const("ty!"+typeKey(t), smt.V)
 }
 
@@ -368,4 +381,17 @@ func (e *Engine) Probe(st *State, detail string) {
 	name := fn + "/vacuity:" + detail
 	e.Obls = append(e.Obls, &Obligation{Name: name, ID: fmt.Sprintf("%s#%d", name, e.pathN), Kind: "vacuity", Func: fn,
 		Assumes: append([]smt.T(nil), st.pc...), Goal: smt.False, ExpectSat: true})
+}
+
+// ObligeSafety records a no-panic obligation on behalf of a client hook.
+func (e *Engine) ObligeSafety(st *State, detail string, pos token.Pos, goal smt.T) {
+	e.oblige(st, "safety", detail, pos, goal)
+}
+
+// CurrentKey is the contract key of the function under verification.
+func (e *Engine) CurrentKey() string {
+	if e.cur == nil {
+		return ""
+	}
+	return e.cur.Key
 }
